@@ -456,7 +456,8 @@ def transformations(env, f, g):
         "qelim-selfsub": lambda: [SelfSubstitutionQuantifierEliminator(env).eliminate_quantifiers(f)],
         "propagate_toplevel": lambda: [rw.propagate_toplevel(f, env)],
         "conj_partition": lambda: list(rw.conjunctive_partition(f)),
-        "normalize": lambda: [Environment().formula_manager.normalize(f)],
+        "normalize": lambda: [_normalize_into_used_env(f, g)],
+        "normalize-conflict": lambda: _normalize_with_conflict(env, f, g),
         "hr-parse": lambda: [HRParser(env).parse(f.serialize())],
     }
 
@@ -480,6 +481,34 @@ def transformations(env, f, g):
     return out
 
 
+def _normalize_into_used_env(f, g):
+    """Copy into an environment that already holds some unrelated nodes (node ids do not line up with the source)."""
+    tgt = Environment()
+    m2 = tgt.formula_manager
+    for i in range(g.rnd.randint(0, 6)):
+        m2.Symbol("junk%d" % i, g.choice([tgt.type_manager.BVType(3), tgt.type_manager.ArrayType(m2.Int(0).get_type(), m2.Real(0).get_type()),
+                                          m2.TRUE().get_type(), m2.Real(0).get_type()]))
+    return m2.normalize(f)
+
+
+def _normalize_with_conflict(env, f, g):
+    """The target already declares one of the formula's symbols with another sort: the copy must be refused.
+    -> [] when refused, else [('resorted', copy, target environment)]"""
+    fv = sorted((s_ for s_ in f.get_free_variables() if not s_.symbol_type().is_function_type()), key=lambda s_: s_.symbol_name())
+    if not fv:
+        return []
+    s0 = g.choice(fv)
+    tgt = Environment()
+    m2 = tgt.formula_manager
+    other = m2.Real(0).get_type() if not s0.symbol_type().is_real_type() else m2.Int(0).get_type()
+    m2.Symbol(s0.symbol_name(), other)
+    try:
+        r = m2.normalize(f)
+    except Exception:
+        return []
+    return [("resorted", r, tgt, s0.symbol_name())]
+
+
 def check_closure(run, bp, g):
     env = Environment()
     with env:
@@ -494,12 +523,20 @@ def check_closure(run, bp, g):
             run.discard("illtyped-original")
             return
         for name, thunk in transformations(env, f, g).items():
-            if t0 != BOOL and name not in ("simplify", "substitute", "normalize", "times_distributor", "hr-parse"):
+            if t0 != BOOL and name not in ("simplify", "substitute", "normalize", "normalize-conflict", "times_distributor", "hr-parse"):
                 continue
             try:
                 results = thunk()
             except Exception as e:
                 run.discard("raised:" + name)
+                continue
+            if name == "normalize-conflict":
+                run.cls("closure:normalize-conflict")
+                for (_, r, tgt, sname) in results:
+                    run.case(key=(name, bp), nontrivial=True)
+                    run.fail({"subcheck": "closure:normalize-resorted"}, {"bp": bp, "transformation": name},
+                             "normalize(%s) into an environment where %r has another sort returned %s instead of raising" % (
+                                 show(bp), sname, r))
                 continue
             for r in results:
                 run.case(key=(name, bp), nontrivial=B.size(bp) >= 3)
@@ -517,7 +554,7 @@ def check_closure(run, bp, g):
                 with (r in env.formula_manager and env or Environment()):
                     pass
                 try:
-                    got = pys.from_ptype(r.get_type()) if name != "normalize" else t1
+                    got = pys.from_ptype(r.get_type())      # (for a copy: asked through the source environment's checker)
                 except Exception as e:
                     run.fail({"subcheck": "closure:get_type-raised", "transformation": name},
                              {"bp": bp, "transformation": name}, "%s: %s" % (name, e))
